@@ -29,7 +29,7 @@ CASE_TIMEOUT = {'quick': 10.0, 'thorough': 60.0}
 UND_F = ['randmio_und', 'randmio_und_connected', 'latmio_und', 'latmio_und_connected',
          'randomize_graph_partial_und', 'randomizer_bin_und']
 DIR_F = ['randmio_dir', 'randmio_dir_connected', 'latmio_dir', 'latmio_dir_connected']
-POL = sorted(rngmod.POLICIES)
+POL = sorted(p for p in rngmod.POLICIES if p != 'stall')
 
 
 def cases(tier, seed):
@@ -96,6 +96,14 @@ def cases(tier, seed):
                 out.append({'f': f, 'g': g, 'w': w, 'ws': i, 'directed': True, 'kind': 'single',
                             'itrs': [0, 1, 3] if thorough else [0, 2], 'rs': seed * 100 + i, 'pol': POL[i % len(POL)],
                             'allpol': thorough and i % 5 == 0})
+    # (c''') a stream that keeps offering the same two connection records for 24 000 draws before it becomes uniform
+    for i, g in enumerate(recs_u[3:40:6]):
+        for f in ('randmio_und', 'randmio_und_connected', 'latmio_und', 'latmio_und_connected'):   # (the signed routines draw through a recursive helper: 12 000 refusals exceed any recursion limit, an event of probability < 1e-40 with a real stream)
+            out.append({'f': f, 'g': g, 'w': 'real', 'ws': i, 'directed': False, 'kind': 'single', 'itrs': [1], 'rs': seed * 100 + i, 'pol': 'stall', 'big': False, 'only_pol': True})
+    # (in a directed cycle the two lowest records are 0->1 and 1->2: a path, not a pair of disjoint connections)
+    for i, g in enumerate(recs_d[3:40:6] + [['named', 'dcycle', 6], ['named', 'dcycle', 9], ['named', 'dcycle_chords', 8, 2, seed], ['named', 'dcycle_chords', 11, 3, seed + 1]]):
+        for f in DIR_F:
+            out.append({'f': f, 'g': g, 'w': 'real', 'ws': i, 'directed': True, 'kind': 'single', 'itrs': [1], 'rs': seed * 100 + i, 'pol': 'stall', 'big': False, 'only_pol': True})
     # (c'') undirected weights that are symmetric only up to rounding (relative 1e-10, far inside the routines' own
     # symmetry tolerance): the two triangles hold different numbers and every one of them has to survive
     for i, g in enumerate(recs_u[:: (3 if thorough else 9)]):
@@ -228,6 +236,8 @@ def run(case, bct, REC):
     descrs = [{'kind': 'spy', 'seed': case['rs']}] + [{'kind': 'hostile', 'policy': p, 'seed': case['rs']} for p in pols]
     if case.get('big'):
         descrs = descrs[:1]
+    if case.get('only_pol'):
+        descrs = descrs[1:]
     for itr in case['itrs']:
         for di, d in enumerate(descrs):
             rng = rngmod.make_rng(d)
@@ -246,6 +256,11 @@ def run(case, bct, REC):
                 RW.execute(REC, bct, f, R, {'alpha': [0, .5, 1.0, 1.0][itr]}, rng)
             else:
                 RW.execute(REC, bct, f, R, {'itr': itr}, rng)
+                if case.get('only_pol') and f.startswith('randmio'):
+                    # a budget of exactly one iteration: whatever the routine does when the stalled stream ends is what
+                    # it returns (later iterations cannot tidy up after it)
+                    k = int((R != 0).sum()) if directed else int((np.tril(R) != 0).sum())
+                    RW.execute(REC, bct, f, R, {'itr': (1 + 1e-9) / k}, rngmod.make_rng(d))
     if n <= 8 and case['rs'] % 5 == 0:
         if f in RW.LAT:
             layout_variants_agree(REC, PROP, f, getattr(bct, f), R, args=(1,), make_kwargs=lambda: {'seed': rngmod.make_rng({'kind': 'spy', 'seed': 3})})
